@@ -75,6 +75,10 @@ def contexts(dialect, text, exp, kind):
         yield "set-in-set", "k = {{%s}, zz}" % text, [("k", SET(SET(exp), "zz"))]
         if kind == "int" and text in ("7", "16#FF#"):
             yield "seq-in-set", "k = {(%s), zz}" % text, [("k", SET(S(exp), "zz"))]
+            yield "seq-with-units-in-set", "k = {(%s, 1) <m>}" % text, [("k", SET(Q(S(exp, 1), "m")))]
+        if kind in ("int", "real"):
+            yield "quantity-in-set", "k = {%s <m>, zz}" % text, [("k", SET(Q(exp, "m"), "zz"))]
+            yield "set-with-units", "k = {%s, zz} <m>" % text, [("k", Q(SET(exp, "zz"), "m"))]
     # units
     if kind in ("int", "real"):
         yield "units", "k = %s <m>" % text, [("k", Q(exp, "m"))]
@@ -157,6 +161,9 @@ SHAPES = [
     [["O", "o", [["G", "g", [["A", 1]]]]]],
     [["G", "g", [["A", 1]]], ["G", "g", [["A", 2]]]],
     [["O", "o", [["O", "o", [["A", 1]]], ["A", 2]]]],
+    # several nested blocks of one name inside a block (a TABLE with its COLUMNs)
+    [["O", "t", [["O", "c", [["A", 1]]], ["O", "c", [["A", 2]]], ["A", 3], ["G", "c", [["A", 4]]]]]],
+    [["G", "g", [["G", "g", [["A", 1]]], ["G", "g", [["A", 2]]]]], ["A", 5]],
 ]
 
 
